@@ -321,6 +321,12 @@ def cv_through(f, n):
     return None
 
 
+# accessors that return (a reference / pointer to) a part of their receiver: an access path continues through them
+PART_ACCESSORS = {'yakushima::border_node::get_permutation', 'yakushima::border_node::get_lv_at',
+                  'yakushima::base_node::get_key_slice_ref', 'yakushima::base_node::get_key_length_ref',
+                  'yakushima::thread_info::get_gc_info', 'yakushima::iscan_context::stack_top'}
+
+
 def root(f, n):
     """The variable / this / call an access path is rooted in.
 
@@ -345,6 +351,9 @@ def root(f, n):
             n = f.strip(f.ch(n)[0], casts=True)
             continue
         if k in CALL_KINDS:
+            if n.get('cq') in PART_ACCESSORS and n['k'] == 'CXXMemberCallExpr':
+                n = f.strip(f.node(n.get('recv')), casts=True)
+                continue
             return ('call', n)
         if k == 'CXXNewExpr':
             return ('new', n)
